@@ -7,10 +7,32 @@
 //! covers built with `derived::cover` from explicit Z/2- resp. Z/3-voltage assignments
 //! found by linear algebra in this file (plus, on a sub-sample, the library's own
 //! `covers::covers(&ds, 3)`).
-use rust_dsymbols::covers::covers;
+//!
+//! Covers from every constructor of the library (C05): `derived::cover` (voltage covers
+//! above), `derived::oriented_cover`, `covers::covers` (= `cover_for_table` on every table of
+//! `coset_tables`), `covers::subgroup_cover` with random subgroup generators and
+//! `covers::finite_universal_cover` (the last two on symbols of positive curvature, whose
+//! groups are finite, so the coset enumeration ends).
+//!
+//! Symbols yielded by the library's own generator (op `geog`): `DSyms::new(&dset, Geometries::All)`
+//! builds its `SimpleDSym`s through another constructor (`PartialDSym::from_fields` +
+//! `SimpleDSym::from_partial(_, counter)`) than the conversions above; the five answers are taken
+//! on the yielded object itself and on a `PartialDSym` rebuilt from its tables.
+//!
+//! Symbols that are NOT connected (outside the property's quantifier; op `geod`): disjoint
+//! unions of two or three small connected symbols, chambers shuffled; the five answers are
+//! taken one by one (each under its own `catch_unwind`), on `PartialDSym` and `SimpleDSym`,
+//! and compared with the model answer by answer — `orbifold_symbol` panics (capacity overflow
+//! of `vec!["o"; (2 - chi) as usize]`) exactly when the capped surfaces of the components have
+//! Euler characteristics adding up to more than 2.
+use rust_dsymbols::covers::{covers, finite_universal_cover, subgroup_cover};
+use rust_dsymbols::fpgroups::free_words::FreeWord;
+use rust_dsymbols::fundamental_group::fundamental_group;
 use rust_dsymbols::delaney2d::{curvature, is_euclidean, is_hyperbolic, is_spherical, orbifold_symbol};
-use rust_dsymbols::derived::{cover, dual};
-use rust_dsymbols::dsets::DSet;
+use rust_dsymbols::derived::{cover, dual, oriented_cover};
+use rust_dsymbols::dsets::{DSet, SimpleDSet};
+use rust_dsymbols::generators::dset_generators::DSets;
+use rust_dsymbols::generators::dsym_generators::{DSyms, Geometries};
 use rust_dsymbols::dsyms::{DSym, PartialDSym, SimpleDSym};
 use std::panic::{catch_unwind, AssertUnwindSafe};
 use std::collections::HashSet;
@@ -54,6 +76,26 @@ fn geo(ctx: &mut Ctx, t: &Tab, tag: &str) {
     });
 }
 
+/// op `geov` (alias of `geo` in the driver): the five answers in both representations on a
+/// VARIANT of an explored symbol (its renumbering, its library dual, a cover) — so that every
+/// symbol the harness touches is seen by the five functions as PartialDSym and as SimpleDSym
+fn geo_variant<F: FnOnce() -> Option<Tab>>(ctx: &mut Ctx, make: F, tag: &str) {
+    if !ctx.peek_mine() {
+        ctx.skip();
+        return;
+    }
+    match make() {
+        Some(t) => ctx.case("geov", tag, || t.enc(), || {
+            let psym: PartialDSym = t.to_partial_dsym();
+            let a = answers(&psym);
+            let ssym: SimpleDSym = psym.into();
+            let c = answers(&ssym);
+            format!("{} {}", a, c)
+        }),
+        None => ctx.skip(),
+    }
+}
+
 fn geo1(ctx: &mut Ctx, t: &Tab, tag: &str) {
     ctx.case("geo1", tag, || t.enc(), || answers(&t.to_partial_dsym()));
 }
@@ -79,10 +121,142 @@ fn dual_case(ctx: &mut Ctx, t: &Tab, tag: &str) {
 }
 
 fn cover_case(ctx: &mut Ctx, t: &Tab, k: usize, cov: &Tab, tag: &str) {
-    ctx.case("cover", tag, || format!("{} {} {}", t.enc(), k, cov.enc()), || {
+    // small connected covers also go through the five functions in both representations (library
+    // covers of a connected base are connected; the voltage covers are filtered for it); the
+    // oriented covers of the exhaustive universe are sub-sampled
+    let take = cov.size <= 48
+        && cov.is_connected()
+        && (!tag.contains("cover=oriented") || (cov.size + t.v[0][1] + t.v[1][1]) % 5 == 0);
+    ctx.case("cover", tag, || format!("{} {} {} {}", t.enc(), k, cov.enc(), b(take)), || {
         let a = konly(&t.to_partial_dsym());
-        let c = konly(&cov.to_partial_dsym());
-        format!("{} {}", a, c)
+        let psym = cov.to_partial_dsym();
+        let c = konly(&psym);
+        if take {
+            let x = answers(&psym);
+            let ssym: SimpleDSym = psym.into();
+            let y = answers(&ssym);
+            format!("{} {} {} {}", a, c, x, y)
+        } else {
+            format!("{} {}", a, c)
+        }
+    });
+}
+
+// ---------------------------------------------------------------------------------
+// symbols yielded by the library's generator
+
+/// op `geog`: every symbol `DSyms::new(ds, All)` yields over the D-set `t`, with the five answers
+/// on the yielded `SimpleDSym` and on the `PartialDSym` rebuilt from its tables
+fn geog(ctx: &mut Ctx, ds: &SimpleDSet, t: &Tab, tag: &str) {
+    ctx.case("geog", tag, || t.enc(), || {
+        let mut parts: Vec<String> = vec![];
+        for sym in DSyms::new(ds, Geometries::All) {
+            let tt = Tab::from_dsym(&sym);
+            let a = answers(&sym);
+            let c = answers(&tt.to_partial_dsym());
+            parts.push(format!("{} {} {}", tt.enc(), a, c));
+        }
+        format!("{} {}", parts.len(), parts.join(" "))
+    });
+}
+
+// ---------------------------------------------------------------------------------
+// symbols that are not connected
+
+fn one<R>(f: impl FnOnce() -> R) -> Option<R> {
+    catch_unwind(AssertUnwindSafe(f)).ok()
+}
+
+fn bsep(x: Option<bool>) -> String {
+    match x {
+        Some(true) => "1".to_string(),
+        Some(false) => "0".to_string(),
+        None => "!".to_string(),
+    }
+}
+
+fn ksep<T: DSym>(ds: &T) -> String {
+    match one(|| curvature(ds)) {
+        Some(k) => format!("{} {}", k.numer(), k.denom()),
+        None => "! !".to_string(),
+    }
+}
+
+/// the five answers, each taken under its own `catch_unwind` (`!` = that call panicked)
+fn answers_sep<T: DSym>(ds: &T) -> String {
+    format!(
+        "{} {} {} {} {}",
+        ksep(ds),
+        bsep(one(|| is_euclidean(ds))),
+        bsep(one(|| is_hyperbolic(ds))),
+        bsep(one(|| is_spherical(ds))),
+        one(|| orbifold_symbol(ds)).unwrap_or("!".to_string())
+    )
+}
+
+/// disjoint union of the parts (chambers of part c shifted behind those of the parts before
+/// it), then renumbered by `perm`; returns the table and the part number (1-based) of every chamber
+fn union(parts: &[&Tab], perm: &[usize]) -> (Tab, Vec<usize>) {
+    let n: usize = parts.iter().map(|p| p.size).sum();
+    let mut t = Tab { size: n, dim: 2, op: vec![vec![0; n + 1]; 3], v: vec![vec![0; n + 1]; 2] };
+    let mut lab = vec![0usize; n + 1];
+    let mut off = 0;
+    for (c, p) in parts.iter().enumerate() {
+        for d in 1..=p.size {
+            for i in 0..=2 {
+                t.op[i][off + d] = off + p.op[i][d];
+            }
+            for i in 0..2 {
+                t.v[i][off + d] = p.v[i][d];
+            }
+            lab[off + d] = c + 1;
+        }
+        off += p.size;
+    }
+    let u = t.renumbered(perm);
+    let mut l2 = vec![0usize; n + 1];
+    for d in 1..=n {
+        l2[perm[d]] = lab[d];
+    }
+    (u, l2)
+}
+
+/// the part `c` of a labelled table, chambers renumbered in increasing order
+fn part_of(t: &Tab, lab: &[usize], c: usize) -> Tab {
+    let ch: Vec<usize> = (1..=t.size).filter(|&d| lab[d] == c).collect();
+    let mut num = vec![0usize; t.size + 1];
+    for (k, &d) in ch.iter().enumerate() {
+        num[d] = k + 1;
+    }
+    let m = ch.len();
+    let mut p = Tab { size: m, dim: 2, op: vec![vec![0; m + 1]; 3], v: vec![vec![0; m + 1]; 2] };
+    for &d in &ch {
+        for i in 0..=2 {
+            p.op[i][num[d]] = num[t.op[i][d]];
+        }
+        for i in 0..2 {
+            p.v[i][num[d]] = t.v[i][d];
+        }
+    }
+    p
+}
+
+/// op `geod`: the answers on a union, one by one, in both representations, and curvature and
+/// orbifold symbol of every part taken as a symbol of its own
+fn geod(ctx: &mut Ctx, parts: &[&Tab], perm: &[usize], tag: &str) {
+    let (u, lab) = union(parts, perm);
+    let k = parts.len();
+    ctx.case("geod", tag, || format!("{} {} {}", u.enc(), k, enc_list(&lab[1..])), || {
+        let psym: PartialDSym = u.to_partial_dsym();
+        let a = answers_sep(&psym);
+        let ssym: SimpleDSym = psym.into();
+        let c = answers_sep(&ssym);
+        let mut out = format!("{} {}", a, c);
+        for cc in 1..=k {
+            let p = part_of(&u, &lab, cc).to_partial_dsym();
+            out.push_str(&format!(" {} {}", ksep(&p), one(|| orbifold_symbol(&p)).unwrap_or("!".to_string())));
+        }
+        out
     });
 }
 
@@ -224,14 +398,35 @@ fn symbol_cases(ctx: &mut Ctx, s: &Tab, serial: usize, with_lib_covers: bool, ta
     geo(ctx, s, tag);
     let p = random_perm1(&mut rng, s.size);
     renum(ctx, s, &p, tag);
+    geo_variant(ctx, || Some(s.renumbered(&p)), &format!("{} variant=renumbered", tag));
     dual_case(ctx, s, tag);
+    geo_variant(
+        ctx,
+        || catch_unwind(AssertUnwindSafe(|| Tab::from_dsym(&dual(&s.to_partial_dsym())))).ok(),
+        &format!("{} variant=dual", tag),
+    );
     for k in [2usize, 3] {
         // one reserved case id per sheet number; the cover is only built by the shard that owns it
         if ctx.peek_mine() {
             let mut r = ctx.rng(1000 + 4 * serial as u64 + k as u64 - 1);
             match voltage_cover(s, k, &mut r) {
-                Some(c) => cover_case(ctx, s, k, &c, &format!("{} sheets={}", tag, k)),
+                Some(c) => cover_case(ctx, s, k, &c, &format!("{} cover=voltage sheets={}", tag, k)),
                 None => ctx.skip(),
+            }
+        } else {
+            ctx.skip();
+        }
+    }
+    // the library's oriented cover (1 sheet for an oriented symbol, else 2)
+    if s.size <= 6 {
+        if ctx.peek_mine() {
+            let psym = s.to_partial_dsym();
+            match catch_unwind(AssertUnwindSafe(|| oriented_cover(&psym))) {
+                Ok(c) if c.size() % s.size == 0 => {
+                    let k = c.size() / s.size;
+                    cover_case(ctx, s, k, &Tab::from_dsym(&c), &format!("{} cover=oriented sheets={}", tag, k));
+                }
+                _ => ctx.skip(),
             }
         } else {
             ctx.skip();
@@ -251,7 +446,7 @@ fn symbol_cases(ctx: &mut Ctx, s: &Tab, serial: usize, with_lib_covers: bool, ta
                 if slot < elig.len() {
                     let c = elig[slot];
                     let k = c.size() / s.size;
-                    cover_case(ctx, s, k, &Tab::from_dsym(c), &format!("{} libcover sheets={}", tag, k));
+                    cover_case(ctx, s, k, &Tab::from_dsym(c), &format!("{} cover=table sheets={}", tag, k));
                     done = true;
                 }
             }
@@ -336,6 +531,120 @@ fn classes(n: usize) -> Vec<Tab> {
     out
 }
 
+/// sign of the curvature of a table, by exact integer arithmetic (for choosing inputs only)
+fn curvature_sign(t: &Tab) -> i64 {
+    // 4 * L * K with L = lcm of all degrees: sum of 4L/m01 + 4L/m12 - 2L
+    fn gcd(a: i128, b: i128) -> i128 {
+        if b == 0 { a } else { gcd(b, a % b) }
+    }
+    let mut l: i128 = 1;
+    let mut ms = vec![];
+    for d in 1..=t.size {
+        for i in 0..2 {
+            let m = (t.r(i, i + 1, d) * t.v[i][d]) as i128;
+            ms.push(m);
+            l = l / gcd(l, m) * m;
+        }
+    }
+    let mut tot: i128 = 0;
+    for m in &ms {
+        tot += 4 * l / m;
+    }
+    tot -= 2 * l * t.size as i128;
+    tot.signum() as i64
+}
+
+/// number of sheets of the universal cover of a symbol of positive curvature if it is a good
+/// orbifold: 4 / K  (None if not an integer)
+fn sheets_bound(t: &Tab) -> Option<usize> {
+    let k = curvature(&t.to_partial_dsym());
+    if *k.numer() <= 0 {
+        return None;
+    }
+    let q = num_rational::Rational64::from(4) / k;
+    Some((*q.numer() / *q.denom()) as usize + 1)
+}
+
+/// covers of symbols of positive curvature (finite groups): `finite_universal_cover` and
+/// `subgroup_cover` for a few random subgroups
+fn finite_group_covers(ctx: &mut Ctx, s: &Tab, serial: usize, tag: &str) {
+    let cap = 360usize;
+    // universal cover
+    if ctx.peek_mine() {
+        let psym = s.to_partial_dsym();
+        let small = sheets_bound(s).map(|b| b * s.size <= cap).unwrap_or(false);
+        let res = if small { catch_unwind(AssertUnwindSafe(|| finite_universal_cover(&psym))).ok() } else { None };
+        match res {
+            Some(c) if c.size() % s.size == 0 => {
+                let k = c.size() / s.size;
+                cover_case(ctx, s, k, &Tab::from_dsym(&c), &format!("{} cover=universal sheets={}", tag, k));
+            }
+            _ => ctx.skip(),
+        }
+    } else {
+        ctx.skip();
+    }
+    // subgroup covers
+    for slot in 0..3u64 {
+        if !ctx.peek_mine() {
+            ctx.skip();
+            continue;
+        }
+        let mut r = ctx.rng(900_000 + 4 * serial as u64 + slot);
+        let psym = s.to_partial_dsym();
+        let ng = catch_unwind(AssertUnwindSafe(|| fundamental_group(&psym).nr_generators())).unwrap_or(0);
+        if ng == 0 {
+            ctx.skip();
+            continue;
+        }
+        let nw = 1 + r.below(3);
+        let subs: Vec<FreeWord> = (0..nw)
+            .map(|_| {
+                let len = 1 + r.below(6);
+                FreeWord::new((0..len).map(|_| {
+                    let x = 1 + r.below(ng) as isize;
+                    if r.chance(1, 2) { x } else { -x }
+                }))
+            })
+            .collect();
+        match catch_unwind(AssertUnwindSafe(|| subgroup_cover(&psym, &subs))) {
+            Ok(c) if c.size() % s.size == 0 && c.size() <= cap => {
+                let k = c.size() / s.size;
+                cover_case(ctx, s, k, &Tab::from_dsym(&c), &format!("{} cover=subgroup sheets={}", tag, k));
+            }
+            _ => ctx.skip(),
+        }
+    }
+}
+
+/// every entry of `covers::covers(ds, kmax)` (one case per entry, at most `slots`)
+fn table_covers(ctx: &mut Ctx, s: &Tab, kmax: usize, slots: usize, tag: &str) {
+    for slot in 0..slots {
+        if !ctx.peek_mine() {
+            ctx.skip();
+            continue;
+        }
+        let psym = s.to_partial_dsym();
+        let mut done = false;
+        if let Ok(cs) = catch_unwind(AssertUnwindSafe(|| covers(&psym, kmax))) {
+            let elig: Vec<&PartialDSym> = cs.iter().filter(|c| c.size() % s.size == 0).collect();
+            if slot < elig.len() {
+                let c = elig[slot];
+                let k = c.size() / s.size;
+                cover_case(ctx, s, k, &Tab::from_dsym(c), &format!("{} cover=table sheets={}", tag, k));
+                done = true;
+            }
+        }
+        if !done {
+            ctx.skip();
+        }
+    }
+}
+
+fn is_nontrivial(s: &Tab) -> bool {
+    (0..2).any(|i| (1..=s.size).any(|d| s.v[i][d] > 1)) || (0..=2).any(|i| (1..=s.size).any(|d| s.op[i][d] == d))
+}
+
 fn main() {
     let mut ctx = Ctx::from_args();
     let th = ctx.thorough();
@@ -414,6 +723,173 @@ fn main() {
             let tag = format!("nt random size={}", n);
             serial += 1;
             symbol_cases(&mut ctx, &s, serial, false, &tag);
+        }
+    }
+    // (3) covers from the other constructors of the library: `finite_universal_cover` and
+    //     `subgroup_cover` on the symbols of positive curvature with n <= 3 (finite groups),
+    //     every entry of `covers::covers(ds, 4)` (= `cover_for_table` over `coset_tables`) on
+    //     all symbols with n <= 2 over {1,2,3,4} resp. {1,2,3}
+    {
+        let mut cs = 0usize;
+        for n in 1..=3usize {
+            let vals: &[usize] = if n <= 2 { &[1, 2, 3, 4, 5] } else { &[1, 2, 3, 5] };
+            for t in dsets(2, n, true, true, false) {
+                for s in all_vs(&t, vals) {
+                    cs += 1;
+                    if curvature_sign(&s) > 0 && (th || n <= 2 || cs % 4 == 0) {
+                        let tag = format!("{}finite size={}", if is_nontrivial(&s) { "nt " } else { "" }, n);
+                        finite_group_covers(&mut ctx, &s, cs, &tag);
+                    }
+                }
+            }
+        }
+        for n in 1..=2usize {
+            let vals: &[usize] = if n == 1 { &[1, 2, 3, 4] } else { &[1, 2, 3] };
+            for t in dsets(2, n, true, true, false) {
+                for s in all_vs(&t, vals) {
+                    cs += 1;
+                    if th || cs % 3 == 0 {
+                        let tag = format!("{}tables size={}", if is_nontrivial(&s) { "nt " } else { "" }, n);
+                        table_covers(&mut ctx, &s, 4, if th { 12 } else { 6 }, &tag);
+                    }
+                }
+            }
+        }
+    }
+
+    // (3b) symbols yielded by the library's own generator, over every D-set class up to the
+    //      size bound (converted from the harness' tables) and over the D-sets of the library's
+    //      own `DSets::new(2, n)` (the real pipeline)
+    {
+        let nmax = if th { 7 } else { 6 };
+        for n in 1..=nmax {
+            let sets = if n <= 3 { dsets(2, n, true, true, false) } else { classes(n) };
+            for t in sets.iter() {
+                let ds: SimpleDSet = t.to_partial_dset().into();
+                geog(&mut ctx, &ds, t, &format!("nt generated src=harness size={}", n));
+            }
+        }
+        for ds in DSets::new(2, if th { 6 } else { 5 }) {
+            let t = Tab::from_dset(&ds);
+            geog(&mut ctx, &ds, &t, &format!("nt generated src=library size={}", t.size));
+        }
+    }
+
+    // (4) symbols that are not connected (outside the property's quantifier): unions of two or
+    //     three connected symbols
+    {
+        let mut rngd = ctx.rng(88);
+        let mut small: Vec<Tab> = vec![];
+        for n in 1..=2usize {
+            for t in dsets(2, n, true, true, false) {
+                // labelled D-sets: keep one per class
+                small.extend(all_vs(&t, &[1, 2, 3]));
+            }
+        }
+        // one representative per isomorphism class of D-set is enough here
+        {
+            let mut seen = HashSet::new();
+            small.retain(|s| {
+                let mut key = canon_key(s);
+                let mut vs: Vec<usize> = vec![];
+                for i in 0..2 {
+                    let mut o: Vec<usize> = s.orbit_reps2(i).iter().map(|&d| s.v[i][d] * 1000 + s.orbit2(i, i + 1, d).len()).collect();
+                    o.sort();
+                    vs.push(usize::MAX);
+                    vs.extend(o);
+                }
+                key.extend(vs);
+                seen.insert(key)
+            });
+        }
+        let mut mid: Vec<Tab> = vec![];
+        for n in 3..=(if th { 8 } else { 7 }) {
+            for t in classes(n) {
+                let mut one = t.clone();
+                for i in 0..2 {
+                    for d in 1..=n {
+                        one.v[i][d] = 1;
+                    }
+                }
+                mid.push(one);
+                mid.push(random_vs(&t, &mut rngd, &[1, 2, 3, 4]));
+            }
+        }
+        let ident = |n: usize| -> Vec<usize> { (0..=n).collect() };
+        // Euler genus (2·handles + cross-caps) of a connected symbol, read off the library's own
+        // answer — used only to choose inputs: a union answers iff the Euler genera of its k
+        // parts add up to at least 2(k − 1)
+        let genus = |t: &Tab| -> usize {
+            let s = one(|| orbifold_symbol(&t.to_partial_dsym())).unwrap_or_default();
+            2 * s.matches('o').count() + s.matches('x').count()
+        };
+        let mut high: Vec<Tab> = mid.iter().filter(|t| genus(t) >= 1).cloned().collect();
+        // tori, Klein bottles, … need at least 8 chambers: taken from a seeded sample of D-sets
+        // with 8–10 chambers
+        for c in 0..(if th { 3000 } else { 500 }) {
+            if let Some(t) = random_dset(&mut rngd, 2, 8 + c % 3, true) {
+                let s = random_vs(&t, &mut rngd, &[1, 1, 2, 3]);
+                if genus(&s) >= 2 {
+                    high.push(s);
+                }
+            }
+        }
+        let mut cnt = 0usize;
+        let mut emit = |ctx: &mut Ctx, parts: &[&Tab], rngd: &mut Rng| {
+            cnt += 1;
+            let n: usize = parts.iter().map(|p| p.size).sum();
+            let perm = if cnt % 2 == 0 { ident(n) } else { random_perm1(rngd, n) };
+            let nt = parts.iter().any(|p| is_nontrivial(p));
+            let tag = format!("{}disconnected parts={} size={}", if nt { "nt " } else { "" }, parts.len(), n);
+            geod(ctx, parts, &perm, &tag);
+        };
+        // (a) unordered pairs of small symbols (all of them in the thorough tier)
+        for a in 0..small.len() {
+            for b in a..small.len() {
+                if th || (a * 31 + b * 17) % 5 == 0 {
+                    emit(&mut ctx, &[&small[a], &small[b]], &mut rngd);
+                }
+            }
+        }
+        // (b) every D-set class with 3..6 chambers next to small, mid-size and higher-genus symbols
+        for a in 0..mid.len() {
+            for _ in 0..2 {
+                let b = rngd.below(small.len());
+                emit(&mut ctx, &[&mid[a], &small[b]], &mut rngd);
+            }
+            let b = rngd.below(mid.len());
+            emit(&mut ctx, &[&mid[a], &mid[b]], &mut rngd);
+            for _ in 0..3 {
+                let b = rngd.below(high.len());
+                emit(&mut ctx, &[&mid[a], &high[b]], &mut rngd);
+            }
+        }
+        // (c) pairs and triples of higher-genus symbols; in two cases out of three the parts are
+        //     redrawn until their Euler genera add up to at least 2(k − 1), so that the
+        //     answering branch of `orbifold_symbol` is explored as often as the panicking one
+        let gs: Vec<usize> = high.iter().map(|t| genus(t)).collect();
+        // tori, Klein bottles, … are rare among the small D-sets: drawn half of the time
+        let g2: Vec<usize> = (0..high.len()).filter(|&i| gs[i] >= 2).collect();
+        for c in 0..(if th { 9000 } else { 1200 }) {
+            let k = 2 + (c % 5) / 3;
+            let mut idx: Vec<usize> = vec![];
+            for _ in 0..40 {
+                idx = (0..k)
+                    .map(|_| if !g2.is_empty() && rngd.chance(1, 2) { g2[rngd.below(g2.len())] } else { rngd.below(high.len()) })
+                    .collect();
+                let g: usize = idx.iter().map(|&i| gs[i]).sum();
+                if c % 3 == 0 || g >= 2 * (k - 1) {
+                    break;
+                }
+            }
+            let parts: Vec<&Tab> = idx.iter().map(|&i| &high[i]).collect();
+            emit(&mut ctx, &parts, &mut rngd);
+        }
+        for _ in 0..(if th { 3000 } else { 300 }) {
+            let pick = |r: &mut Rng| -> usize { r.below(small.len() + mid.len()) };
+            let (x, y, z) = (pick(&mut rngd), pick(&mut rngd), pick(&mut rngd));
+            let get = |i: usize| -> &Tab { if i < small.len() { &small[i] } else { &mid[i - small.len()] } };
+            emit(&mut ctx, &[get(x), get(y), get(z)], &mut rngd);
         }
     }
     ctx.finish();
